@@ -3,7 +3,7 @@ import itertools
 import contracts.formatstring as F
 import contracts.atts  # noqa: F401  (callee contract of copy_with_new_atts, used by fmtstr#plain)
 from pyvc.verify import verify
-from bounded.common import Suite, mk, layouts, FmtStr, Chunk, fmtstr
+from bounded.common import Suite, mk, layouts, FmtStr, Chunk, fmtstr, cells, describe
 
 LEVEL = "proof"
 CONTRACTS = [F.normalize_slice, F.getitem, F.add, F.radd, F.mul, F.join, F.from_str_plain, F.fmtstr_plain_body]
@@ -81,6 +81,28 @@ def bounded(check, tier):
             for items in itertools.product(pool, repeat=n):
                 s.contract_case(F.join, dict(self=sep, iterable=list(items)))
         s.contract_case(F.join, dict(self=sep, iterable=["a", 3]))
+    s.done()
+    # join takes any iterable (its annotation; the repository's examples pass generator expressions): a one-pass iterator, a tuple
+    # and a map object must give what the list form - judged by the contract above - gives
+    s = Suite(check, "C06.join_iterables", "join over a tuple, iter(list), a generator expression, map and reversed of every item list of "
+              "length <= 3: the same runs as the list form", bound="items<=3")
+    forms = [("tuple", tuple), ("iter", iter), ("generator", lambda xs: (x for x in xs)), ("map", lambda xs: map(lambda x: x, xs)),
+             ("reversed", lambda xs: reversed(xs[::-1]))]
+    for sep in seps:
+        for n in range(0, 4):
+            for items in itertools.product(pool, repeat=n):
+                want = cells(sep.join(list(items)))
+                wanttext = (sep.s).join(x if isinstance(x, str) else x.s for x in items)
+                for name, form in forms:
+                    s.case((describe(sep), tuple(describe(x) for x in items), name))
+                    try:
+                        got = sep.join(form(list(items)))
+                        d = "" if cells(got) == want and got.s == wanttext and len(got) == len(wanttext) else \
+                            f"gives text {got.s!r} (len {len(got)}), runs {got.chunks}; the list form gives {want}"
+                    except Exception as e:      # noqa: BLE001
+                        d = f"raised {type(e).__name__}: {e}"
+                    if d:
+                        s.fail("C06.FmtStr.join.iterable", dict(sep=describe(sep), items=[describe(x) for x in items], form=name), d)
     s.done()
 
 
